@@ -159,12 +159,12 @@ def _step(cfg):
             n1 = (z3.Or(e1[0], to1), z3.If(to1, qaddr, e1[1]), z3.If(to1, cap, e1[2]))
             newpend.append([n0, n1])
             if i == 0:
-                wit["response with non-zero data while two responses are pending"] = z3.And(sdone, sdata != 0, v1)
+                wit["response with non-zero expected data while two responses are pending"] = z3.And(sdone, expect != 0, v1)
                 wit["request and response in the same cycle"] = z3.And(sdone, qdone)
                 wit["request of a row that is written in the same cycle"] = z3.And(qdone, wdone[0], waddr[0] == qaddr, wdata[0] != _rd(rows, qaddr))
                 wit["write to the oldest pending address while its response waits"] = z3.And(v0, z3.Not(sdone), wdone[nw - 1], waddr[nw - 1] == a0,
                                                                                            wdata[nw - 1] != _rd(rows, a0))
-                wit["second pending response differs from the first"] = z3.And(v1, a0 != a1, sdone, sdata != _rd(rows, a1))
+                wit["two pending responses for different rows with different contents"] = z3.And(v1, a0 != a1, sdone, expect != _rd(rows, a1))
         if nw > 1:
             wit["two writes in the same cycle"] = z3.And(wdone[0], wdone[1])
         if gran is not None and w // gran > 1:
